@@ -60,7 +60,7 @@ ASSUMPTIONS = [
 EPOCH_ORD = datetime.date(1899, 12, 31).toordinal()
 MAXSER = 2958465
 ALL_TYPES = (1, 2, 3, 11, 12, 13, 14, 15, 16, 17)
-OMIT = object()
+OMIT = Ellipsis   # picklable singleton: "argument omitted"
 
 
 class BigSet(set):
@@ -437,6 +437,9 @@ def gen_ops(ctx, big):
         for b in pts:
             cases.append(('DAYS', (b, a)))
             for u in ('D', 'M', 'Y'):
+                # "D" (like MD, YD) lists one datetime per day with rrule: keep the spans moderate
+                if u == 'D' and b - a > 40000:
+                    continue
                 cases.append(('DATEDIF', (a, b, u)))
             for basis in (0, 1, 2, 3, 4):
                 cases.append(('YEARFRAC', (a, b, basis)))
@@ -444,6 +447,8 @@ def gen_ops(ctx, big):
     for a in small:
         for b in small:
             for u in ('d', 'm', 'y', 'MD', 'YM', 'YD', 'md', 'X', ''):
+                if u == 'd' and b - a > 40000:
+                    continue
                 cases.append(('DATEDIF', (a, b, u)))
             for basis in (5, -1, 0.5, 1.0, 2.0):
                 cases.append(('YEARFRAC', (a, b, basis)))
@@ -454,6 +459,7 @@ def gen_ops(ctx, big):
     cases.append(('DAYS', (datetime.datetime(2020, 1, 1), db)))
     cases.append(('YEARFRAC', (db, datetime.datetime(2020, 1, 1), 2)))
     cases.append(('DATEDIF', (db, datetime.datetime(2020, 1, 1), 'M')))
+    cases.append(('DATEDIF', (1, MAXSER, 'D')))      # one full-length daily recurrence
     return cases
 
 
@@ -525,6 +531,35 @@ def run(ctx):
         'datetime for the fields) and vs the Lean model; non-trivial = distinct input inside the statement\'s domain '
         '(the reference determines the result)')
     nproc = min(16, os.cpu_count() or 4) if big else 4
+
+    # ---- 0. replay of one stored failing input
+    if getattr(ctx, 'replay', None):
+        obj = json.loads(open(ctx.replay).read())
+        inp = obj.get('input') or {}
+        if 'op' not in inp:
+            res.notes.append('the replay file names no single input (proof/correspondence break): running the tier')
+        else:
+            def dec(a):
+                if a == '<omitted>':
+                    return OMIT
+                if isinstance(a, str) and len(a) >= 19 and a[4] == '-' and a[10] == 'T':
+                    return datetime.datetime.fromisoformat(a)
+                return a
+            case = (inp['op'], tuple(dec(a) for a in inp['args']))
+            real, impl, spec = _ops_chunk([case])[0]
+            res.evaluations = 1
+            res.rule = 'replay of one stored input'
+            res.sample({'op': case[0], 'args': inp['args'], 'real': real, 'spec': spec, 'impl_model': impl})
+            if spec != '-':
+                res.nontrivial.add(repr(inp))
+            if not meets(case[0], case[1], real, spec):
+                fid = known_of(case[0], case[1], real, impl, spec)
+                if fid in listed:
+                    res.known.setdefault(fid, []).append(inp)
+                else:
+                    res.violations.append({'what': f'{case[0]} disagrees with the 1900 date system reference',
+                                           'input': inp, 'expected': spec, 'got': real})
+            return res
 
     # ---- 1. calendar fields of serials
     if big:
@@ -609,7 +644,8 @@ def run(ctx):
         got = norm_x(common.call_real(ev))
         via += 1
         res.evaluations += 1
-        if not ulp_close(got, direct):
+        # an exception escaping a function is re-raised by the evaluator as RuntimeError
+        if not ulp_close(got, direct) and not (got.startswith('X:') and direct.startswith('X:')):
             res.violations.append({'what': f'{op} through a formula differs from the direct call',
                                    'input': {'formula': cells['Sheet1!Z1'],
                                              'cells': {k: v for k, v in cells.items() if k != 'Sheet1!Z1'}},
